@@ -90,54 +90,72 @@ func ruleCommitHook(c *Ctx, rule string) {
 	p := c.P
 	onCommit := p.ExtMethod(bboltPath, "Tx", "OnCommit")
 	n := 0
+	// the field the context keeps its transaction in: the one its setTx fills from the parameter
+	var txField *types.Var
 	for _, fn := range c.prodFuncs("boltz") {
 		if fn.Name() != "setTx" || fn.Signature.Recv() == nil || len(fn.Params) != 2 {
 			continue
 		}
-		// the context that keeps the transaction itself (wrappers hand it on to this one)
-		tx := fn.Params[1]
-		keeps := false
 		for _, b := range fn.Blocks {
 			for _, in := range b.Instrs {
-				if st, ok := in.(*ssa.Store); ok && st.Val == ssa.Value(tx) {
+				if st, ok := in.(*ssa.Store); ok && st.Val == ssa.Value(fn.Params[1]) {
 					if f, base := fieldOfAddr(st.Addr); f != nil && base == ssa.Value(fn.Params[0]) {
-						keeps = true
+						txField = f
 					}
 				}
 			}
 		}
-		if !keeps {
-			continue
-		}
-		n++
-		name := FnName(fn)
-		c.Analysed(name)
-		fi := factsOf(fn)
-		isHook := func(in ssa.Instruction) bool {
-			call, ok := in.(ssa.CallInstruction)
-			if !ok || !isCallTo(call, onCommit) || len(call.Common().Args) < 1 {
-				return false
-			}
-			recv := call.Common().Args[0]
-			if recv == ssa.Value(tx) {
-				return true
-			}
-			// the field the transaction was just stored in
-			f, base := loadedField(recv)
-			return f != nil && base == ssa.Value(fn.Params[0]) && types.Identical(f.Type(), tx.Type())
-		}
-		ok := noPathAvoiding(fn, isHook, func(from, to *ssa.BasicBlock) bool {
-			for f := range fi.edgeFacts(from, to) {
-				if f.Kind == "nonnil" && !f.Pol && (f.V == ssa.Value(tx) || func() bool {
-					ff, base := loadedField(f.V)
-					return ff != nil && base == ssa.Value(fn.Params[0]) && types.Identical(ff.Type(), tx.Type())
-				}()) {
-					return true
+	}
+	if txField == nil {
+		c.Undecided(rule, "boltz mutate context: transaction field", "-", "cannot find the setTx that keeps the transaction in a field of the context")
+		return
+	}
+	// every function that puts a transaction into that field (setTx, or a constructor filling it directly)
+	for _, fn := range c.prodFuncs("boltz") {
+		var stores []*ssa.Store
+		for _, b := range fn.Blocks {
+			for _, in := range b.Instrs {
+				st, ok := in.(*ssa.Store)
+				if !ok || isNilConst(st.Val) {
+					continue
+				}
+				if f, _ := fieldOfAddr(st.Addr); f != nil && sameVar(f, txField) {
+					stores = append(stores, st)
 				}
 			}
-			return false
-		})
-		c.Check(ok, rule, name, p.Pos(fn.Pos()), "every path that binds a transaction (tx != nil) registers the commit handler with it", "a transaction can be bound to the context without the commit handler being registered with it (registration left to a later moment or made conditional): commit actions queued before the transaction began never run")
+		}
+		for _, st := range stores {
+			tx := st.Val
+			_, holder := fieldOfAddr(st.Addr)
+			n++
+			name := FnName(fn)
+			c.Analysed(name)
+			fi := factsOf(fn)
+			isTxOf := func(v ssa.Value) bool {
+				if v == tx {
+					return true
+				}
+				// the field the transaction was just stored in
+				f, base := loadedField(v)
+				return f != nil && sameVar(f, txField) && base == holder
+			}
+			isHook := func(in ssa.Instruction) bool {
+				call, ok := in.(ssa.CallInstruction)
+				if !ok || !isCallTo(call, onCommit) || len(call.Common().Args) < 1 {
+					return false
+				}
+				return isTxOf(call.Common().Args[0])
+			}
+			ok := noPathAvoiding(fn, isHook, func(from, to *ssa.BasicBlock) bool {
+				for f := range fi.edgeFacts(from, to) {
+					if f.Kind == "nonnil" && !f.Pol && isTxOf(f.V) {
+						return true
+					}
+				}
+				return false
+			})
+			c.Check(ok, rule, name, p.Pos(fn.Pos()), "every path that binds a transaction (tx != nil) registers the commit handler with it", "a transaction can be bound to the context without the commit handler being registered with it (registration left to a later moment, made conditional, or the field filled directly by a constructor): commit actions queued on that context never run")
+		}
 	}
 	c.CallSites(n)
 	c.Floor(rule, 1)
